@@ -52,7 +52,9 @@ class C16(Prop):
                 yield {"kind": "clique", "tau": tau, "hs": hs}
         yield {"kind": "clique", "tau": 1}
         for n in range(3, 11 if q else 13):
-            yield {"kind": "cycle", "n": n}
+            yield {"kind": "cycle", "n": n} if n > 10 else \
+                {"kind": "cycle", "n": n, "points": [{"phi": ["1/3", "1/2", "1"][n % 3], "hs": [["1/2", "6/7", "1"][n % 3]], "zero_as": "int"},
+                                                     {"phi": "3/4", "hs": ["0"], "zero_as": ["float", "fraction"][n % 2]}]}
         for n in range(1, 13 if q else 15):
             yield {"kind": "Qrow", "n": n}
         for n in range(1, 6 if q else 7):
@@ -126,6 +128,18 @@ class C16(Prop):
             o = {"poly": mp.poly_canon(chordless_cycle_equation(case["n"], mp.uvar(0), mp.pvar()))}
             o["numeric"] = [repr(float(chordless_cycle_equation(case["n"], self._num(pt["hs"][0], pt), Fraction(pt["phi"]))))
                             for pt in case.get("points", [])]
+            pts = case.get("points", [])
+            if pts:
+                # the same polynomial evaluated element-wise on a whole grid of neighbour values (an array argument), exactly
+                import numpy as np
+                us = [Fraction(pt["hs"][0]) for pt in pts] + [Fraction(2, 5)]
+                grid = []
+                for pt in pts:
+                    arr = np.array(us, dtype=object)
+                    val = chordless_cycle_equation(case["n"], arr, Fraction(pt["phi"]))
+                    grid.append({"phi": pt["phi"], "us": [rs(x) for x in us], "vals": [rs(Fraction(x)) for x in np.asarray(val, dtype=object).ravel()],
+                                 "arg_untouched": [Fraction(x) for x in arr] == us})
+                o["grid"] = grid
             return o
         if k == "Qrow":
             n = case["n"]
@@ -162,7 +176,7 @@ class C16(Prop):
             return {"row": obs["row"]}
         if case["kind"] == "nocg":
             return {"count": obs["count"]}
-        return {k: v for k, v in obs.items() if k != "numeric"}
+        return {k: v for k, v in obs.items() if k not in ("numeric", "grid")}
 
     def oracle(self, case, obs):
         if "exc" in obs:
@@ -197,6 +211,14 @@ class C16(Prop):
                 w = mp.exact_numeric(nodes, edges, 0, {v: Fraction(pt["hs"][0]) for v in nodes if v}, Fraction(pt["phi"]))
                 if abs(Fraction(float(got)) - w) > Fraction(1, 10 ** 9):
                     f.append(f"cycle-at-point: n={n}, phi={pt['phi']}, u={pt['hs'][0]}: value {got}, exact expectation {float(w)}")
+                    break
+            for g in obs.get("grid", []):
+                want_g = [rs(mp.exact_numeric(nodes, edges, 0, {v: Fraction(u) for v in nodes if v}, Fraction(g["phi"]))) for u in g["us"]]
+                if g["vals"] != want_g:
+                    f.append(f"cycle-on-grid: n={n}, phi={g['phi']}, u = array{g['us']}: values {g['vals']}, exact expectations {want_g}")
+                    break
+                if not g["arg_untouched"]:
+                    f.append(f"cycle-on-grid: n={n}: the array handed in as u was modified")
                     break
         elif k in ("Qrow", "QQ"):
             n = case["n"]
